@@ -41,7 +41,7 @@ def main(ids):
     for m in muts:
         scratch = tempfile.mkdtemp(prefix="verif-selftest-", dir=os.environ.get("VERIF_SCRATCH", "/var/tmp"))
         try:
-            shutil.copytree(os.path.join(env.REPO, "middleware"), os.path.join(scratch, "middleware"))
+            shutil.copytree(os.path.join(env.REPO, "middleware"), os.path.join(scratch, "middleware"), symlinks=True)
             os.symlink(os.path.join(env.REPO, "firmware"), os.path.join(scratch, "firmware"))
             os.symlink(os.path.join(env.REPO, "docs"), os.path.join(scratch, "docs"))
             if "patch" in m and any(not l[6:].startswith("middleware/") for l in open(m["patch"])
